@@ -8,6 +8,9 @@ from .. import lib, hist, f1, lang
 
 LEVEL = f1.LEVEL
 KINDS = ['ADD', 'ADDF', 'DOTSET', 'DOTVAL']
+# second pass: additions that follow removals (remove() / xml_x = None) -- an addition accepted after an earlier child was
+# taken out is still an accepted addition, and the choice/requirement state remove() leaves behind is what decides it
+REMOVALS = ['ADD', 'REMOVE', 'DOTNONE']
 
 
 def units(tier):
@@ -53,9 +56,11 @@ def run_unit(name, tier, seed):
     red = hist.reduced_alphabet(name)
     full = lib.content_model(name).names
     if tier == 'quick':
-        passes = [dict(kinds_by_depth=lambda d: KINDS if d <= 2 else ['ADD', 'DOTSET'], D=8, budget=3000, fwd=(-1, 2), alphabet=red)]
+        passes = [dict(kinds_by_depth=lambda d: KINDS if d <= 2 else ['ADD', 'DOTSET'], D=8, budget=3000, fwd=(-1, 2), alphabet=red),
+                  dict(kinds_by_depth=lambda d: REMOVALS if d <= 3 else ['ADD'], D=6, budget=2500, fwd=(-1, 2), alphabet=red)]
     else:
-        passes = [dict(kinds_by_depth=lambda d: KINDS if d <= 3 else ['ADD', 'DOTSET'], D=10, budget=40000, fwd=(-2, 4), alphabet=full)]
+        passes = [dict(kinds_by_depth=lambda d: KINDS if d <= 3 else ['ADD', 'DOTSET'], D=10, budget=40000, fwd=(-2, 4), alphabet=full),
+                  dict(kinds_by_depth=lambda d: REMOVALS if d <= 5 else ['ADD'], D=8, budget=25000, fwd=(-2, 4), alphabet=full)]
     r = f1.multi(name, passes, judge, judge_concrete, per_step=per_step)
     keep = []
     for c in r['cands']:
@@ -83,10 +88,11 @@ def describe():
     return dict(
         rule='add-only histories (ADD, forward ADD, dot assignment of a child or a value) of <= K operations per class; after every '
              'accepted addition the Parikh formula of the content model is asked whether some word contains the held multiset; '
+             'a second pass interleaves remove() / xml_x = None with the additions and judges every accepted addition the same way; '
              'non-trivial = every history',
-        functions=['xmlelement/xmlelement.py:XMLElement.add_child', 'XMLElement.__setattr__', 'xmlelement/xmlchildcontainer.py:XMLChildContainer.add_element',
+        functions=['xmlelement/xmlelement.py:XMLElement.add_child', 'XMLElement.remove', 'XMLElement.__setattr__', 'xmlelement/xmlchildcontainer.py:XMLChildContainer.add_element',
                    'XMLChildContainer._update_requirements_in_path', 'XMLChildContainer.max_is_reached', 'XMLChildContainer.duplicate'],
-        bounds=dict(exploration='breadth-first over reachable states, depth <= 8 (10 thorough), path budget 3000 (40000) per class; forward adds and value assignments from states at depth <= 2 (3)',
+        bounds=dict(exploration='breadth-first over reachable states, depth <= 8 (10 thorough), path budget 3000 (40000) per class; forward adds and value assignments from states at depth <= 2 (3); add/remove pass: depth <= 6 (8), 2500 (25000) paths, removals from states at depth <= 3 (5)',
                     oracle='unbounded word length (linear integer arithmetic)', outside='longer histories'),
         assumptions=['dead end is judged at the level of the schema (multiset containment), then confirmed on the real code by to_string and a bounded completion search (<= 2 further children)'],
         exhaustive_within_bounds=True)
